@@ -119,8 +119,96 @@ theorem none_key_matches_none : Val.eq .none .none = true ∧ ∀ v, Val.eq .non
   refine ⟨by simp [Val.eq], ?_⟩
   intro v; cases v <;> simp [Val.eq]
 
+/-! ### crossjoin: the cartesian product of the squared-up tables, left-major -/
+
+omit hbs in
+/-- the view: concatenated headers, then the cross product of the data rows squared up to their own header -/
+theorem crossjoin_view (missing : Val) (ts : List Table) :
+    crossJoinView missing ts = .ok ((ts.map (fun t => t.headD [])).flatten ::
+      crossProduct (ts.map (fun t => stackRows (t.headD []).length missing (t.drop 1)))) := rfl
+
+omit hbs in
+/-- crossjoin of two tables: every left row paired with every right row, left-major -/
+theorem crossjoin_two (a b : List Row) :
+    crossProduct [a, b] = a.flatMap (fun r => b.map (fun s => r ++ s)) := by
+  simp [crossProduct]
+
+omit hbs in
+/-- the number of output rows is the product of the tables' row counts -/
+theorem crossjoin_count : ∀ ts : List (List Row),
+    (crossProduct ts).length = (ts.map List.length).foldr (· * ·) 1
+  | [] => rfl
+  | t :: ts => by
+    have ih := crossjoin_count ts
+    simp only [crossProduct, List.map_cons, List.foldr_cons]
+    rw [← ih]
+    induction t with
+    | nil => simp
+    | cons r t iht =>
+      simp only [List.flatMap_cons, List.length_append, List.length_map, iht, List.length_cons]
+      rw [Nat.succ_mul]; omega
+
+omit hbs in
+/-- more than two tables: the first table crossed with the cross product of the others -/
+theorem crossjoin_assoc (t : List Row) (ts : List (List Row)) :
+    crossProduct (t :: ts) = crossProduct [t, crossProduct ts] := by
+  simp [crossProduct]
+
+omit hbs in
+/-- position by position (hence order and multiplicity): output row `i * |b| + j` is row `i` of `a`
+    followed by row `j` of `b` -/
+theorem crossjoin_two_getElem : ∀ (a b : List Row) (i j : Nat) (hi : i < a.length) (hj : j < b.length),
+    (crossProduct [a, b])[i * b.length + j]? = some (a[i] ++ b[j])
+  | [], _, _, _, hi, _ => by simp at hi
+  | r :: a, b, i, j, hi, hj => by
+    rw [crossjoin_two, List.flatMap_cons]
+    cases i with
+    | zero =>
+      rw [List.getElem?_append_left (by simpa using hj)]
+      simp [hj]
+    | succ i =>
+      rw [List.getElem?_append_right (by simp [Nat.succ_mul]; omega)]
+      have h := crossjoin_two_getElem a b i j (by simpa using hi) hj
+      rw [crossjoin_two] at h
+      have e : (i + 1) * b.length + j - (List.map (fun s => r ++ s) b).length = i * b.length + j := by
+        simp [Nat.succ_mul]; omega
+      rw [e, h]; simp
+
+omit hbs in
+/-- an output row is exactly a concatenation of one row of each table, in table order -/
+theorem mem_crossjoin_iff : ∀ (ts : List (List Row)) (x : Row),
+    x ∈ crossProduct ts ↔ ∃ choice : List Row, choice.length = ts.length ∧
+      (∀ i (h : i < choice.length) (h' : i < ts.length), choice[i] ∈ ts[i]) ∧ x = choice.flatten
+  | [], x => by
+    simp only [crossProduct, List.mem_singleton, List.length_nil]
+    constructor
+    · intro h; exact ⟨[], rfl, by intro i h; simp at h, by simp [h]⟩
+    · rintro ⟨c, hc, _, hx⟩
+      have : c = [] := List.length_eq_zero_iff.1 hc
+      simp [hx, this]
+  | t :: ts, x => by
+    simp only [crossProduct, List.mem_flatMap, List.mem_map]
+    constructor
+    · rintro ⟨r, hr, rest, hrest, rfl⟩
+      obtain ⟨c, hc, hmem, rfl⟩ := (mem_crossjoin_iff ts rest).1 hrest
+      refine ⟨r :: c, by simp [hc], ?_, by simp⟩
+      intro i h h'
+      cases i with
+      | zero => simpa using hr
+      | succ i => simpa using hmem i (by simpa using h) (by simpa using h')
+    · rintro ⟨c, hc, hmem, rfl⟩
+      cases c with
+      | nil => simp at hc
+      | cons r c =>
+        refine ⟨r, by have := hmem 0 (by simp) (by simp); simpa using this, c.flatten, ?_, by simp⟩
+        apply (mem_crossjoin_iff ts _).2
+        refine ⟨c, by simpa using hc, ?_, rfl⟩
+        intro i h h'
+        have := hmem (i + 1) (by simpa using h) (by simpa using h'); simpa using this
+
 /-! non-vacuity: the hypotheses are satisfiable and the merge loop is exercised on a real case -/
 example : (∀ b, (some 2 : Option Nat) = some b → 1 ≤ b) := by intro b h; cases h; omega
 example : Val.eq (getKey [0] [.none, .str [97]]) (getKey [1] [.str [98], .none]) = true := by decide
+example : (crossProduct [[[Val.none], [Val.none, Val.none]], [[Val.none, Val.none]], [[], [Val.none]]]).length = 4 := by decide
 
 end Petl.C06
